@@ -112,7 +112,14 @@ pub fn file(ctx: &Ctx) -> Stats {
         let kmax = if rng.chance(1, 8) { 8 } else { 6 };
         let k = rng.usize(1, kmax);
         let nrec = rng.usize(1, 50);
-        let recs = gen_records(&mut rng, nrec, k, None, 120, 0);
+        let mut recs = gen_records(&mut rng, nrec, k, None, 120, 0);
+        // invariance at file level: append the reverse complement, the case-swapped and the T->U variant of one
+        // record; their rows must be byte-identical to that record's row
+        let src = rng.usize(0, recs.len() - 1);
+        let variants = [model::revcomp_text(&recs[src].seq), swapcase(&recs[src].seq), t_to_u(&recs[src].seq)];
+        for (j, v) in variants.iter().enumerate() {
+            recs.push(refmodel::gen::Rec { id: format!("variant{}", j), desc: None, seq: v.clone() });
+        }
         let cfg = OligoCfg {
             k,
             threads: rng.usize(1, 4),
@@ -144,7 +151,24 @@ pub fn file(ctx: &Ctx) -> Stats {
         let data = run.output.unwrap_or_default();
         if let Err((sig, msg)) = check_rows(&data, &recs, &cfg) {
             st.violate(&sig, msg, case());
-        } else if idx % 131 == 0 {
+            return;
+        }
+        {
+            let ls = lines(&data);
+            let off = if cfg.header { 1 } else { 0 };
+            let n = recs.len();
+            for j in 0..3 {
+                if ls.get(off + n - 3 + j) != ls.get(off + src) {
+                    st.violate(
+                        &format!("oligo.invariance.row.{}", ["revcomp", "swapcase", "T->U"][j]),
+                        format!("the row of the {} variant of record {} differs from that record's row", ["reverse-complemented", "case-swapped", "T->U"][j], src),
+                        case(),
+                    );
+                    return;
+                }
+            }
+        }
+        if idx % 131 == 0 {
             st.sample(Json::obj().set("cfg", cfg.json()).set("records", Json::u(recs.len())).set("first_record", Json::bytes(&recs[0].seq)));
         }
     })
